@@ -2751,12 +2751,21 @@ class Trimesh(Geometry3D):
         # since the lock will keep whatever normals are in the cache
         self._cache.verify()
         with self._cache:
+            # hold on to the normals computed for the current winding
+            face_normals = None
             if "face_normals" in self._cache:
-                self.face_normals = self._cache["face_normals"] * -1.0
+                face_normals = self._cache["face_normals"] * -1.0
+            vertex_normals = None
             if "vertex_normals" in self._cache:
-                self.vertex_normals = self._cache["vertex_normals"] * -1.0
+                vertex_normals = self._cache["vertex_normals"] * -1.0
             # fliplr makes array non-contiguous so cache checks slow
             self.faces = np.ascontiguousarray(np.fliplr(self.faces))
+            # assign after the flip: the setter rejects face normals
+            # which don't agree with the winding of the current faces
+            if face_normals is not None:
+                self.face_normals = face_normals
+            if vertex_normals is not None:
+                self.vertex_normals = vertex_normals
         # save our normals
         self._cache.clear(exclude=["face_normals", "vertex_normals"])
 
